@@ -211,14 +211,19 @@ static void containment_and_accuracy(unsigned long long& unit)
 	struct Res { double value; long long evals, outside, wrong_size; int died; };
 	Res* sh = (Res*)mmap(nullptr, sizeof(Res), PROT_READ | PROT_WRITE, MAP_SHARED | MAP_ANONYMOUS, -1, 0);
 	std::vector<int> budgets = mc::thorough() ? std::vector<int>{1000, 10000, 100000} : std::vector<int>{1000, 10000};
+	// budgets that are multiples of a power of two (block-wise accumulation), for the constant and the exponential family only
+	for(int b : {64, 1024, 4096}) budgets.push_back(b);
+	if(mc::thorough()) budgets.push_back(64000);
 	std::vector<unsigned> seeds = mc::thorough() ? std::vector<unsigned>{1, 2, 3} : std::vector<unsigned>{1, 2};
 	for(const char* m : {"Monte-Carlo", "Vegas", "Miser"})
 		for(int dim = 1; dim <= 6; dim++)
-			for(int reg = 0; reg < 4; reg++)
+			for(int reg = 0; reg < 5; reg++)	// region 4: narrow box far from the origin (dimensions 1 and 2; constant and exponential family)
 				for(int budget : budgets)
 					for(int fam = 0; fam < 6; fam++)
 						for(unsigned seed : seeds)
 						{
+							if((budget == 64 || budget == 1024 || budget == 4096 || budget == 64000 || reg == 4) && fam > 1) continue;
+							if(reg == 4 && dim > 2) continue;
 							if(!mc::mine(unit++)) continue;
 							if(mc::out_of_time("C14 containment")) return;
 							// families 4 and 5: sharply peaked off-centre Gaussians (width 0.07 and 0.1 of the side, centred at 0.7)
@@ -229,8 +234,8 @@ static void containment_and_accuracy(unsigned long long& unit)
 							V region(2 * dim);
 							for(int j = 0; j < dim; j++)
 							{
-								double lo = reg == 0 ? 0 : reg == 1 ? -3 + j : reg == 2 ? 100 + j : -1e3;
-								double w  = reg == 0 ? 1 : reg == 1 ? 0.5 + j : reg == 2 ? 1e-3 * (1 + j) : 1e3 * (1 + (j % 2));
+								double lo = reg == 0 ? 0 : reg == 1 ? -3 + j : reg == 2 ? 100 + j : reg == 4 ? 1e8 + 3 * j : -1e3;
+								double w  = reg == 0 ? 1 : reg == 1 ? 0.5 + j : reg == 2 ? 1e-3 * (1 + j) : reg == 4 ? 1e-3 : 1e3 * (1 + (j % 2));
 								region[j] = lo; region[dim + j] = lo + w;
 							}
 							ld vol = 1;
